@@ -49,12 +49,19 @@ INVARIANTS = ["TypeOK", "Contained", "ModulePathInside", "OutsideRaises", "Outsi
 
 
 # --------------------------------------------------------------------------- TLC configurations
+def _mode(modon):
+    """Module option vector: "dir" module_directory; "none"; "cbdir" modulename_callable + module_directory; "cb"
+    modulename_callable alone (booleans of older call sites: True = "dir", False = "none")."""
+    return {True: "dir", False: "none"}.get(modon, modon)
+
+
 def _constants(maxsegs, cfg, genctx, modon, segs):
     return ("CONSTANTS\n SegNames = {%s}\n DotDotNames = {%s}\n MaxSegs = %d\n Roots <- WorldRoots\n ModOn = %s\n"
             " ModDir <- WorldModDir\n Files <- WorldFiles\n Callers <- WorldCallers\n TemplFile <- WorldTemplFile\n"
             " GenCtx = {%s}\n Cfg = \"%s\"\n"
             % (", ".join('"%s"' % s for s in segs), ", ".join('"%s"' % s for s in segs if s.startswith("..") and s != ".."),
-               maxsegs, "TRUE" if modon else "FALSE", ", ".join('"%s"' % c for c in genctx), cfg))
+               maxsegs, "TRUE" if _mode(modon) != "none" else "FALSE", ", ".join('"%s"' % c for c in genctx), cfg)
+            + " ModCallable = %s\n" % ("TRUE" if _mode(modon).startswith("cb") else "FALSE"))
 
 
 def mc_cfg(maxsegs, cfg, genctx, modon=True, segs=SEGS):
@@ -191,14 +198,38 @@ T_STATIC = {"sinc": "<%%include file=\"%s\"/>", "sinh": "<%%inherit file=\"%s\"/
             "snst": "<%%namespace name=\"ns\" file=\"%s\"/>${ns.body()}"}
 
 
+def _identity(text):
+    return text
+
+
+EXTRAS = [  # lookup option vectors that must not change any outcome (sampled: one per replay job)
+    {}, {"filesystem_checks": False}, {"collection_size": 80}, {"cache_enabled": False}, {"strict_undefined": True},
+    {"input_encoding": "utf-8"}, {"preprocessor": "identity"}, {"lexer_cls": "subclass"},
+    {"filesystem_checks": False, "collection_size": 60, "cache_enabled": False, "strict_undefined": True,
+     "input_encoding": "utf-8", "preprocessor": "identity", "lexer_cls": "subclass"},
+]
+
+
+def option_kwargs(extras):
+    kw = dict(extras)
+    if kw.get("preprocessor") == "identity":
+        kw["preprocessor"] = _identity
+    if kw.get("lexer_cls") == "subclass":
+        from mako.lexer import Lexer
+        kw["lexer_cls"] = type("VerifLexer", (Lexer,), {})
+    return kw
+
+
 class World:
     """The exported world under `base` (which stands for the model's file-system root) and a real
     TemplateLookup over it."""
 
-    def __init__(self, base, world, modon, with_callers=True, cwd=True):
+    def __init__(self, base, world, modon, with_callers=True, cwd=True, extras=None):
         self.base = base
         self.desc = world
-        self.modon = modon
+        self.mode = _mode(modon)
+        self.modon = modon = self.mode != "none"
+        self.extras = dict(extras or {})
         files = sorted(world["files"])
         self.content = {}
         for k, p in enumerate(files):
@@ -212,7 +243,7 @@ class World:
         if cwd and any(not r.startswith("/") for r in world["roots"]):
             os.chdir(base)                  # relative roots: the working directory is the model's file-system root
         self.rootdirs = [base + d for d in world["dirs"]]
-        self.moddir = (base + world["moddir"]) if modon else None
+        self.moddir = (base + world["moddir"]) if self.mode in ("dir", "cbdir") else None
         self.modroot = base + world["modroot"]
         self.templfile = base + world["templfile"]
         self.with_callers = with_callers
@@ -221,10 +252,19 @@ class World:
     def fresh(self):
         """A new TemplateLookup (bounded memory) with the calling templates put under their URIs."""
         from mako.lookup import TemplateLookup
-        self.lk = TemplateLookup(self.roots, module_directory=self.moddir)
+        self.lk = TemplateLookup(self.roots, module_directory=self.moddir,
+                                 modulename_callable=self.module_name if self.mode.startswith("cb") else None,
+                                 **option_kwargs(self.extras))
+        self.put_callers()
+
+    def module_name(self, filename, uri):
+        """The modulename_callable / module_filename of the "cb" vectors: ModRoot/cb/<source path>.py (CallablePath)."""
+        return self.modroot + "/cb" + os.path.abspath(filename)[len(self.base):] + ".py"
+
+    def put_callers(self):
         if self.with_callers:
             for c, uri in self.desc["callers"].items():
-                # three templates per caller share the caller's directory: the relative URI is
+                # the templates of one caller share the caller's directory: the relative URI is
                 # resolved against dirname(caller URI) in all of them
                 for suffix, text in (("", T_INC), ("h", T_INH), ("n", T_NST), ("k", T_NSC)):
                     self.lk.put_string(uri + suffix, text)
@@ -279,6 +319,9 @@ class World:
         name = cu + {"inh": "h", "nst": "n", "nsc": "k"}.get(mode, "")
         if mode in T_STATIC:
             name = cu + "s"
+        elif name not in self.lk._collection:
+            # a bounded collection (collection_size) evicts put_string entries (finding F05 of C14): put it back
+            self.lk.put_string(name, {"inh": T_INH, "nst": T_NST, "nsc": T_NSC}.get(mode, T_INC))
 
         def fn(ob):
             if mode in T_STATIC:
@@ -293,7 +336,10 @@ class World:
         from mako.template import Template
 
         def fn(ob):
-            t = Template(uri=u, filename=self.templfile, module_directory=self.moddir, lookup=self.lk)
+            if self.mode.startswith("cb"):          # Template(..., module_filename=...): the module path is given
+                t = Template(uri=u, filename=self.templfile, module_filename=self.module_name(self.templfile, u), lookup=self.lk)
+            else:
+                t = Template(uri=u, filename=self.templfile, module_directory=self.moddir, lookup=self.lk)
             ob["kind"] = "F"
             ob["path"] = self.rel(t.filename)
             ob["mod"] = self.rel(getattr(t.module, "__file__", None)) if self.modon else ""
@@ -457,11 +503,12 @@ def slice_lines(path, start, end):
 
 
 def _replay_slice(job):
-    (name, base, path, start, end, world, modon, modes_all_upto, thin) = job
+    (name, base, path, start, end, world, modon, modes_all_upto, thin, extras) = job
     import gc
     _install_audit(base)
-    wl = World(os.path.join(base, "L"), world, modon)
-    wt = World(os.path.join(base, "Tm"), world, modon, with_callers=False, cwd=False)
+    wl = World(os.path.join(base, "L"), world, modon, extras=extras)
+    wt = World(os.path.join(base, "Tm"), world, modon, with_callers=False, cwd=False, extras=extras)
+    optname = ",".join(sorted(extras)) or "defaults"
     mism = []
     hashes = array.array("Q")
     n = 0
@@ -508,7 +555,8 @@ def _replay_slice(job):
                 if bad and len(mism) < 40:
                     d = dict(bad[1])
                     d.pop("log", None)
-                    mism.append({"site": site, "mode": bad[0], "uri": u, "ctx": ctx, "allowed": sorted(allowed), "observed": d})
+                    mism.append({"site": site, "mode": bad[0], "uri": u, "ctx": ctx, "allowed": sorted(allowed), "observed": d,
+                                 "module_options": wl.mode, "other_options": optname})
     shutil.rmtree(base, ignore_errors=True)
     return name, n, mism, nrows, hashes.tobytes()
 
@@ -521,9 +569,10 @@ def report(run, mism, cfgname, source):
     for (site, mode), ms in sorted(groups.items()):
         ms.sort(key=lambda m: (len(tokens(m["uri"])), m["uri"], m["ctx"]))
         ex = ms[0]
-        run.violation("%s:%s:%s" % (site, mode, shape(ex["uri"])),
-                      "%s with URI %r (context %s, root configuration %s): %s; the model allows %s"
-                      % (site, ex["uri"], ex["ctx"], cfgname, mode, ex["allowed"]),
+        cb = str(ex.get("module_options", "")).startswith("cb")
+        run.violation("%s:%s:%s%s" % (site, mode, shape(ex["uri"]), ":modulename_callable" if cb else ""),
+                      "%s with URI %r (context %s, root configuration %s, module options %s, other options %s): %s; the model allows %s"
+                      % (site, ex["uri"], ex["ctx"], cfgname, ex.get("module_options"), ex.get("other_options"), mode, ex["allowed"]),
                       {"source": source, "config": cfgname, "example": ex, "others": [m["uri"] for m in ms[1:12]], "count": len(ms)})
 
 
@@ -551,8 +600,9 @@ def record_requests(run, world, modon, uris, ctxs):
     """Requests made on the real code, recorded as trace events (the observation in the model's terms)."""
     base = os.path.join(run.subdir("world-v"), "p0")
     _install_audit(base)
-    wl = World(os.path.join(base, "L"), world, modon)
-    wt = World(os.path.join(base, "Tm"), world, modon, with_callers=False)
+    extras = EXTRAS[len(uris[0]) % len(EXTRAS)] if uris else {}
+    wl = World(os.path.join(base, "L"), world, modon, extras=extras)
+    wt = World(os.path.join(base, "Tm"), world, modon, with_callers=False, extras=extras)
     traces = []
     for i, toks in enumerate(uris):
         u = "".join(toks)
@@ -641,6 +691,8 @@ def check(run):
         ("enum-D", "D", 3, SEGS, ["direct", "template", "c1", "r0"], True, 1, 2),
         ("enum-E", "E", 3, SEGS, ["direct", "c3"], True, 1, 2),
         ("enum-R", "R", 3, SEGS, ["direct", "c2"], True, 1, 2),
+        ("enum-A-cbdir", "A", 3, SEGS, ["direct", "template", "c1", "c3"], "cbdir", 1, 2),   # modulename_callable + module_directory
+        ("enum-A-cb", "A", 3, SEGS, ["direct", "template", "c0", "c2"], "cb", 1, 2),         # modulename_callable alone
         ("enum-A5", "A", 5, ["a", ".."], ["direct", "c2"], False, 0, 3),        # longer URIs on a reduced alphabet (6 in thorough)
     ]
     if thorough:
@@ -649,6 +701,8 @@ def check(run):
             ("enum-A5", "A", 5, SEGS_REDUCED, MAIN_CTX, True, 0, 6),
             ("enum-A6", "A", 6, ["sub", ".."], ["direct", "c1", "c3"], True, 0, 4),
             ("enum-A6a", "A", 6, ["a", ".."], ["direct"], False, 0, 4),
+            ("enum-A-cbdir", "A", 4, SEGS, ["direct", "template", "c1", "c3"], "cbdir", 2, 4),
+            ("enum-A-cb", "A", 4, SEGS, ["direct", "template", "c0", "c2"], "cb", 2, 4),
             ("enum-B", "B", 4, SEGS, ["direct", "c1", "r1", "x1"], True, 2, 4),
             ("enum-C", "C", 4, SEGS, ["direct", "c0", "d1", "b1", "t2"], False, 2, 4),
             ("enum-D", "D", 4, SEGS, ["direct", "template", "c1"], True, 2, 4),
@@ -693,7 +747,7 @@ def check(run):
         step = size // nsl + 1
         for k in range(nsl):
             job = (name, os.path.join(run.subdir("world-" + name), "p%d" % k), path, k * step, min(size, (k + 1) * step),
-                   world, modon, modes_upto, not thorough)
+                   world, modon, modes_upto, not thorough, EXTRAS[(k + len(name)) % len(EXTRAS)])
             pending.append(pool.apply_async(_replay_slice, (job,)))
     with ThreadPoolExecutor(max_workers=conc) as ex:
         futs = {}
